@@ -59,6 +59,35 @@ func c15(repo string, out *fg.Out) error {
 	if len(strF) == 0 || len(idF) == 0 {
 		return fmt.Errorf("expected string and identifier placeholder formats, got %d/%d", len(strF), len(idF))
 	}
+	// de-duplication key of identifier placeholders: every identPlaceholders[…] index must be the
+	// masked token text itself (`original`), and `original` must be the raw slice sql[start:i].
+	var keyExprs []string
+	ast.Inspect(fd, func(n ast.Node) bool {
+		if ix, ok := n.(*ast.IndexExpr); ok {
+			if id, ok := ix.X.(*ast.Ident); ok && id.Name == "identPlaceholders" {
+				keyExprs = append(keyExprs, mf.Text(ix.Index))
+			}
+		}
+		return true
+	})
+	if len(keyExprs) < 2 {
+		return fmt.Errorf("MaskStringLiterals: expected a lookup and a store into identPlaceholders, found %d index expressions", len(keyExprs))
+	}
+	keyIsOriginal := true
+	for _, k := range keyExprs {
+		if k != "original" {
+			keyIsOriginal = false
+		}
+	}
+	origIsSlice := false
+	ast.Inspect(fd, func(n ast.Node) bool {
+		if as, ok := n.(*ast.AssignStmt); ok && len(as.Lhs) == 1 && len(as.Rhs) == 1 {
+			if id, ok := as.Lhs[0].(*ast.Ident); ok && id.Name == "original" && mf.Text(as.Rhs[0]) == "sql[start:i]" {
+				origIsSlice = true
+			}
+		}
+		return true
+	})
 	// UnmaskStringLiterals: ReplaceAll under `if mask.Identifier`, Replace(…, 1) otherwise
 	ud := mf.FuncDecl("", "UnmaskStringLiterals")
 	if ud == nil {
@@ -146,6 +175,7 @@ func c15(repo string, out *fg.Out) error {
 	fmt.Fprintln(w, "]")
 	fmt.Fprintf(w, "/-- count argument of strings.Replace for string-class masks in UnmaskStringLiterals -/\ndef unmaskStrCount : Int := %s\n", cnt.Value)
 	fmt.Fprintln(w, "/-- identifier-class masks are restored with strings.ReplaceAll (guarded by `mask.Identifier`) -/\ndef unmaskIdentAll : Bool := true")
+	fmt.Fprintf(w, "/-- every `identPlaceholders[k]` in MaskStringLiterals has k = `original` = `sql[start:i]` (index expressions found: %s) -/\ndef identDedupKeyIsTokenText : Bool := %v\n", strings.Join(keyExprs, ", "), keyIsOriginal && origIsSlice)
 	fmt.Fprintln(w, "/-- (function of internal/api/query.go that calls stripSQLComments, MaskStringLiterals is called before every such call) -/")
 	fmt.Fprintln(w, "def callSites : List (String × Bool) := [")
 	for i, s := range sites {
@@ -160,5 +190,6 @@ func c15(repo string, out *fg.Out) error {
 	out.JSON["str_formats"] = strF
 	out.JSON["ident_formats"] = idF
 	out.JSON["call_sites"] = sites
+	out.JSON["ident_dedup_keys"] = keyExprs
 	return nil
 }
